@@ -129,6 +129,16 @@ theorem deleted_before_accept_still_returned (t : STyp) (p : Persp) (n : Int) (h
 example : acceptedIds ((Incoming.new .bidi 3 .server).run
     [.getOrOpen 4, .delete 0, .accCall 1, .accLocked 1, .accCall 2, .accLocked 2]).2 = [0, 4] := by decide
 
+/-- Observation (DESIGN §7 C15; the property does not speak about concurrent acceptors): with two
+    concurrent `AcceptStream` callers and two streams opened by one frame, the single-slot
+    `newStreamChan` wakes only one of them; the second stays asleep although its stream is in the map,
+    until the next stream is opened.  This is why the correspondence uses one acceptor per type. -/
+theorem observation_two_acceptors_single_slot :
+    let m := ((Incoming.new .bidi 5 .server).run
+      [.accCall 1, .accLocked 1, .accCall 2, .accLocked 2, .getOrOpen 4, .accRecv 1, .accLocked 1]).1
+    (m.accs.map (·.aid) = [2]) ∧ (lookup m.streams m.nextAccept).isSome = true ∧ m.chan = false ∧
+    (m.accs.all (fun a => !a.ready)) = true := by decide
+
 /-! ## outgoing streams -/
 
 theorem outgoing_reachable_inv (t : STyp) (p : Persp) (ops : List OutOp) (hw : ∀ op ∈ ops, op.wf) :
@@ -266,7 +276,7 @@ example : ((Map.new .server 1 1).step (.sendFrame 5)).2.frameRes = some (.error 
     their initial state, `reset` is set, the replaced maps carry `Err0RTTRejected` as their close error
     with every wait channel closed, so that every caller blocked in them returns `Err0RTTRejected` at
     its next step; until `UseResetMaps` every Open/Accept call is answered with `Err0RTTRejected`. -/
-theorem reset_for_0rtt (m : Map) (hd : m.dead = false) (hc1 : m.inBidi.chanClosed = false)
+theorem reset_for_0rtt (m : Map) (hc1 : m.inBidi.chanClosed = false)
     (hc2 : m.inUni.chanClosed = false) :
     let m' := m.resetFor0RTT.1
     m.resetFor0RTT.2 = false ∧ m'.reset = true ∧
